@@ -413,7 +413,29 @@ def validate_traces(ctx, cases, traces, name="trace"):
         ctx.fail(v["clause"], "MasksTrace rejects the recorded array (witness voxel %s)" % (v.get("witness"),), case, sig)
 
 
-def gen_l3_cases(ctx, rng, n_hard, n_soft, n_alg, cap, nbig):
+SOFT_SIGMAS = [0.5, 1.0, 1.5, 2.0, 3.0]
+
+
+def core_inside_request(rng, shape, parity=None):
+    """A soft-edge request whose requested core lies inside the box (so every face of the core - for cylinders both
+    caps - is blurred); the blur itself may reach the box faces."""
+    even = shape == "ell"
+    n = rand_box(rng, 16, 34, even=even, cap=26000)
+    c = [rng.randint(x // 2 - 3, x // 2 + 3) for x in n]
+    room = [min(c[i], n[i] - 1 - c[i]) for i in range(3)]
+    q = {"shape": shape, "n": n, "c": c, "dc": False}
+    if shape == "sphere":
+        q["r"] = rng.randint(2, min(room))
+    elif shape == "cyl":
+        q["r"] = rng.randint(2, min(room[0], room[1]))
+        half = rng.randint(1, room[2])
+        q["h"] = 2 * half + (1 if parity == "odd" else 0)          # floor(h/2) = half for both parities
+    else:
+        q["rr"] = [rng.randint(2, room[i]) for i in range(3)]
+    return q
+
+
+def gen_l3_cases(ctx, rng, n_hard, n_soft, n_alg, cap, nbig, soft_rounds=1):
     cases = []
     for i in range(n_hard):
         if i < nbig:
@@ -421,9 +443,17 @@ def gen_l3_cases(ctx, rng, n_hard, n_soft, n_alg, cap, nbig):
         else:
             q = rand_request(rng, 6, 48, cap=cap)
         cases.append({"kind": "hard", "req": q, "variant": rng.randrange(64)})
+    # soft edges, blurred outwards: every shape that has the flag x every width (cylinders with odd and even heights),
+    # core inside the box
+    for rnd in range(soft_rounds):
+        for shape, parity in (("sphere", None), ("cyl", "odd"), ("cyl", "even"), ("ell", None)):
+            for sigma in SOFT_SIGMAS:
+                sg = sigma if rnd == 0 else round(rng.uniform(0.3, 3.0), 2)
+                cases.append({"kind": "soft", "req": core_inside_request(rng, shape, parity), "variant": rng.randrange(64),
+                              "sigma": sg, "has_flag": True, "outwards": True})
     for i in range(n_soft):
         q = rand_request(rng, 6, 40, cap=cap)
-        sigma = rng.choice([0.5, 1.0, 1.5, 2.0, 3.0, round(rng.uniform(0.3, 3.0), 2)])
+        sigma = rng.choice(SOFT_SIGMAS + [round(rng.uniform(0.3, 3.0), 2)])
         has_flag = q["shape"] in ("sphere", "cyl", "ell")
         outwards = has_flag and rng.random() < 0.6
         cases.append({"kind": "soft", "req": q, "variant": rng.randrange(64), "sigma": sigma, "has_flag": has_flag,
@@ -479,7 +509,8 @@ def run(ctx):
                 "all lists of 1..3 pool masks and the truth-table lists of 1..5 - plus seeded mid-size requests from a case "
                 "file; each is built with cryomask (argument forms, dtypes, files varied) and compared voxel by voxel. "
                 "L3: masks in boxes up to 48 projected to per-column runs, every voxel re-decided by MasksTrace; soft "
-                "masks: range and core. distinct = distinct (request, argument-form variant)")
+                "masks: range, and the core for sphere / cylinder (odd and even heights, both caps inside the box) / ellipsoid x "
+                "sigma in {0.5, 1, 1.5, 2, 3} blurred outwards in every run plus random requests. distinct = distinct (request, argument-form variant)")
     ctx.assumptions += [
         "projection alpha (array -> set of linear indices of ones / per-column runs / min,max x1e6) is trusted",
         "ellipsoid voxels exactly on the surface with more than one non-zero offset are not compared (float tie)",
@@ -526,7 +557,7 @@ def run(ctx):
         recs = sorted(recs, key=lambda r: core.stable_hash(r["case"]))
         replay_records(ctx, recs, ctx.seed * 131 + 7)
     if want("trace"):
-        cases = gen_l3_cases(ctx, rng, ctx.pick(26, 500), ctx.pick(16, 300), ctx.pick(40, 600),
-                             cap=ctx.pick(30000, 60000), nbig=ctx.pick(2, 25))
+        cases = gen_l3_cases(ctx, rng, ctx.pick(24, 500), ctx.pick(10, 300), ctx.pick(40, 600),
+                             cap=ctx.pick(30000, 60000), nbig=ctx.pick(2, 25), soft_rounds=ctx.pick(1, 12))
         traces = make_traces(ctx, cases)
         validate_traces(ctx, cases, traces)
